@@ -306,7 +306,7 @@ pub fn c02() -> Spec {
         pks: vec![PKind::Binary, PKind::BinaryLe, PKind::Compact, PKind::Unsafe],
         scheds: true,
         values: Values::Conforming,
-        per_type: (60, 1500),
+        per_type: (250, 3000),
         own_keys: vec![],
         required_classes: vec!["shape struct", "shape union", "shape enum", "shape typedef", "async", "synthesised method type", "keep_unknown_fields build", "split build", "payload >= 4096", ">= 3 struct levels", "bool field"],
     }
@@ -321,7 +321,7 @@ pub fn c04() -> Spec {
         pks: vec![PKind::Binary, PKind::BinaryLe, PKind::Compact, PKind::Unsafe],
         scheds: false,
         values: Values::Conforming,
-        per_type: (40, 1000),
+        per_type: (120, 2000),
         own_keys: vec!["size-"],
         required_classes: vec!["shape struct", "shape union", "protocol Compact", "bool field"],
     }
@@ -339,7 +339,7 @@ pub fn c08() -> Spec {
         pks: vec![PKind::Binary, PKind::BinaryLe, PKind::Compact, PKind::Unsafe],
         scheds: true,
         values: Values::Evolved,
-        per_type: (60, 1500),
+        per_type: (250, 3000),
         own_keys: vec![],
         required_classes: vec!["edit: unknown field added", "edit: field removed", "edit: field retyped", "edit: fields reordered", "edit: unknown field in a union", "reference semantics demand an error", "async", "shape union"],
     }
@@ -356,7 +356,7 @@ pub fn c13() -> Spec {
         pks: vec![PKind::Binary, PKind::Unsafe],
         scheds: false,
         values: Values::WithUnknown,
-        per_type: (60, 1500),
+        per_type: (250, 3000),
         own_keys: vec![],
         required_classes: vec!["edit: unknown field added", "edit: unknown field below the top level", "edit: unknown field inside a container element", "edit: unknown field in a union", "method argument struct", "protocol Unsafe"],
     }
